@@ -57,14 +57,27 @@ theorem tie_edge_iff {r : RMod} {bbs : List BBox} (h : Restricted r bbs) (k : RO
   · rintro ⟨s, hs, b, hb⟩
     exact ⟨b, s, hs, k, b, hb, rfl⟩
 
+theorem floating_ne_ties {r : RMod} {bbs : List BBox} (h : Restricted r bbs) {n : Name}
+    (hf : Floating bbs r.inputs r.stmts n) : n ≠ "tie0" ∧ n ≠ "tie1" := by
+  have := (floating_plain h.stmts hf).ne_ties
+  exact ⟨this.1, this.2.1⟩
+
+theorem floating_not_output {r : RMod} {bbs : List BBox} (h : Restricted r bbs) {n : Name}
+    (hf : Floating bbs r.inputs r.stmts n) : n ∉ r.outputs := by
+  intro hm
+  obtain ⟨t, ht⟩ := h.out_def hm
+  exact hf.2 t ht
+
 theorem view4 {r : RMod} {bbs : List BBox} (h : Restricted r bbs) {g2 g4 : Circuit}
-    (g2a : ∀ n x, g2.attr? n = some x ↔ NodeOf r bbs n x)
+    (g2a : ∀ n x, g2.attr? n = some x ↔
+      NodeOf r bbs n x ∨ (Floating bbs r.inputs r.stmts n ∧ x = { ty := some "buf", out := some false }))
     (g4a : ∀ n, g4.attr? n =
       (g2.attr? n).map (fun a => if n ∈ r.outputs then { a with out := some true } else a)) (n : Name)
     (a : Option String × Bool) :
     view g4 n = some a ↔
       (∃ t, DefTy bbs r.inputs r.stmts n t ∧ a = (some t, decide (n ∈ r.outputs))) ∨
-      (n = "tie0" ∧ a = (some "0", false)) ∨ (n = "tie1" ∧ a = (some "1", false)) := by
+      (n = "tie0" ∧ a = (some "0", false)) ∨ (n = "tie1" ∧ a = (some "1", false)) ∨
+      (Floating bbs r.inputs r.stmts n ∧ a = (some "buf", false)) := by
   have key : ∀ x, g2.attr? n = some x → x.out.getD false = false →
       view g4 n = some (x.ty, decide (n ∈ r.outputs)) := by
     intro x hx ho
@@ -85,7 +98,7 @@ theorem view4 {r : RMod} {bbs : List BBox} (h : Restricted r bbs) {g2 g4 : Circu
       rw [g4a, hx] at hv
       cases hv
     | some x =>
-      rcases (g2a n x).1 hx with ⟨hi, rfl⟩ | ⟨e, rfl⟩ | ⟨e, rfl⟩ | ⟨k, ⟨s, hs, hd⟩, rfl⟩
+      rcases (g2a n x).1 hx with (⟨hi, rfl⟩ | ⟨e, rfl⟩ | ⟨e, rfl⟩ | ⟨k, ⟨s, hs, hd⟩, rfl⟩) | ⟨hfl, rfl⟩
       · rw [key _ hx rfl] at hv
         injection hv with hv
         exact Or.inl ⟨"input", Or.inl ⟨hi, rfl⟩, hv.symm⟩
@@ -102,40 +115,55 @@ theorem view4 {r : RMod} {bbs : List BBox} (h : Restricted r bbs) {g2 g4 : Circu
           simp only [decide_eq_false_iff_not]
           exact fun hm => (hout n hm).2 e
         rw [this] at hv
-        exact Or.inr (Or.inr ⟨e, hv.symm⟩)
+        exact Or.inr (Or.inr (Or.inl ⟨e, hv.symm⟩))
       · rw [key _ hx rfl] at hv
         injection hv with hv
         exact Or.inl ⟨k, Or.inr ⟨s, hs, hd⟩, hv.symm⟩
-  · rintro (⟨t, hd, rfl⟩ | ⟨e, rfl⟩ | ⟨e, rfl⟩)
+      · rw [key _ hx rfl] at hv
+        injection hv with hv
+        have : decide (n ∈ r.outputs) = false := by
+          simp only [decide_eq_false_iff_not]
+          exact floating_not_output h hfl
+        rw [this] at hv
+        exact Or.inr (Or.inr (Or.inr ⟨hfl, hv.symm⟩))
+  · rintro (⟨t, hd, rfl⟩ | ⟨e, rfl⟩ | ⟨e, rfl⟩ | ⟨hfl, rfl⟩)
     · rcases hd with ⟨hi, rfl⟩ | ⟨s, hs, hd⟩
-      · exact key _ ((g2a n _).2 (Or.inl ⟨hi, rfl⟩)) rfl
-      · exact key _ ((g2a n _).2 (Or.inr (Or.inr (Or.inr ⟨t, ⟨s, hs, hd⟩, rfl⟩)))) rfl
+      · exact key _ ((g2a n _).2 (Or.inl (Or.inl ⟨hi, rfl⟩))) rfl
+      · exact key _ ((g2a n _).2 (Or.inl (Or.inr (Or.inr (Or.inr ⟨t, ⟨s, hs, hd⟩, rfl⟩))))) rfl
     · have : decide (n ∈ r.outputs) = false := by
         simp only [decide_eq_false_iff_not]
         exact fun hm => (hout n hm).1 e
-      rw [key _ ((g2a n _).2 (Or.inr (Or.inl ⟨e, rfl⟩))) rfl, this]
+      rw [key _ ((g2a n _).2 (Or.inl (Or.inr (Or.inl ⟨e, rfl⟩)))) rfl, this]
     · have : decide (n ∈ r.outputs) = false := by
         simp only [decide_eq_false_iff_not]
         exact fun hm => (hout n hm).2 e
-      rw [key _ ((g2a n _).2 (Or.inr (Or.inr (Or.inl ⟨e, rfl⟩)))) rfl, this]
+      rw [key _ ((g2a n _).2 (Or.inl (Or.inr (Or.inr (Or.inl ⟨e, rfl⟩))))) rfl, this]
+    · have : decide (n ∈ r.outputs) = false := by
+        simp only [decide_eq_false_iff_not]
+        exact floating_not_output h hfl
+      rw [key _ ((g2a n _).2 (Or.inr ⟨hfl, rfl⟩)) rfl, this]
 
 /-- the specification of a node, split into "present before the constants are pruned" and "survives pruning" -/
 theorem nodeSpec_iff {r : RMod} {bbs : List BBox} (h : Restricted r bbs) (n : Name) (a : Option String × Bool) :
     NodeSpec r bbs "tie0" "tie1" n a ↔
       ((∃ t, DefTy bbs r.inputs r.stmts n t ∧ a = (some t, decide (n ∈ r.outputs))) ∨
-        (n = "tie0" ∧ a = (some "0", false)) ∨ (n = "tie1" ∧ a = (some "1", false))) ∧
+        (n = "tie0" ∧ a = (some "0", false)) ∨ (n = "tie1" ∧ a = (some "1", false)) ∨
+        (Floating bbs r.inputs r.stmts n ∧ a = (some "buf", false))) ∧
       (n = "tie0" → ConstUsed bbs r.stmts .c0) ∧ (n = "tie1" → ConstUsed bbs r.stmts .c1) := by
   unfold NodeSpec
   constructor
-  · rintro (⟨t, hd, ha⟩ | ⟨e, ha, hu⟩ | ⟨e, ha, hu⟩)
+  · rintro (⟨t, hd, ha⟩ | ⟨e, ha, hu⟩ | ⟨e, ha, hu⟩ | ⟨hfl, ha⟩)
     · have := defTy_ne_ties h hd
       exact ⟨Or.inl ⟨t, hd, ha⟩, fun e => absurd e this.1, fun e => absurd e this.2⟩
     · exact ⟨Or.inr (Or.inl ⟨e, ha⟩), fun _ => hu, fun e' => by rw [e] at e'; exact absurd e' (by decide)⟩
-    · exact ⟨Or.inr (Or.inr ⟨e, ha⟩), fun e' => by rw [e] at e'; exact absurd e' (by decide), fun _ => hu⟩
-  · rintro ⟨⟨t, hd, ha⟩ | ⟨e, ha⟩ | ⟨e, ha⟩, h0, h1⟩
+    · exact ⟨Or.inr (Or.inr (Or.inl ⟨e, ha⟩)), fun e' => by rw [e] at e'; exact absurd e' (by decide), fun _ => hu⟩
+    · have := floating_ne_ties h hfl
+      exact ⟨Or.inr (Or.inr (Or.inr ⟨hfl, ha⟩)), fun e => absurd e this.1, fun e => absurd e this.2⟩
+  · rintro ⟨⟨t, hd, ha⟩ | ⟨e, ha⟩ | ⟨e, ha⟩ | ⟨hfl, ha⟩, h0, h1⟩
     · exact Or.inl ⟨t, hd, ha⟩
     · exact Or.inr (Or.inl ⟨e, ha, h0 e⟩)
-    · exact Or.inr (Or.inr ⟨e, ha, h1 e⟩)
+    · exact Or.inr (Or.inr (Or.inl ⟨e, ha, h1 e⟩))
+    · exact Or.inr (Or.inr (Or.inr ⟨hfl, ha⟩))
 
 theorem addEdge_name (c : Circuit) (u v : Name) : (c.addEdge u v).name = c.name := by
   unfold addEdge; split <;> rfl
